@@ -5,11 +5,17 @@ import os
 
 from . import kernels, kernels_group, tables, guards, unchecked_sites, nondet_sources, cursor_sites, size_checks, gen_templates
 
+from . import methods_dynarray
+from . import methods_cursor
+from . import methods_staticarray
+from . import methods_checked
+from . import methods_optional
+
 
 def run(repo, outdir):
     report = {'failed': {}, 'parts': {}}
     for name, mod in (('kernels', kernels), ('kernels_group', kernels_group), ('tables', tables), ('guards', guards), ('unchecked_sites', unchecked_sites),
-                      ('nondet_sources', nondet_sources), ('cursor_sites', cursor_sites), ('size_checks', size_checks), ('gen_templates', gen_templates)):
+                      ('nondet_sources', nondet_sources), ('cursor_sites', cursor_sites), ('size_checks', size_checks), ('gen_templates', gen_templates), ('methods_dynarray', methods_dynarray), ('methods_cursor', methods_cursor), ('methods_staticarray', methods_staticarray), ('methods_checked', methods_checked), ('methods_optional', methods_optional)):
         r = mod.extract(repo, outdir)
         report['parts'][name] = r
         for k, v in r.get('failed', {}).items():
